@@ -13,7 +13,7 @@ ASSUME_ENV = [
 
 # which diff kinds decide which property
 KINDS = {
-    'C01': ['synced-height', 'total-balance', 'utxo-missing', 'utxo-extra', 'utxo-differs', 'utxo-duplicate',
+    'C01': ['coin-not-buildable', 'synced-height', 'total-balance', 'utxo-missing', 'utxo-extra', 'utxo-differs', 'utxo-duplicate',
             'utxo-confirmations', 'balance-total', 'balance-spendable', 'balance-wstaking', 'balance-wbinding',
             'address-balance-missing', 'address-balance-extra', 'address-balance-differs', 'use-wallet', 'api-error',
             'died', 'timeout', 'step-error'],
@@ -345,6 +345,50 @@ PLAN_C06 = dict(
             'every handler step is one database commit, so a Crash action between any two actions of a history is a crash at every commit boundary; RestartCrash(k) places a crash after the k-th commit of the catch-up'],
 )
 PROPS['C06'] = plan_check(PLAN_C06)
+
+
+
+LEDGER_KINDS = ['coin-not-buildable', 'synced-height', 'total-balance', 'utxo-missing', 'utxo-extra', 'utxo-differs', 'utxo-duplicate',
+                'balance-total', 'balance-spendable', 'balance-wstaking', 'balance-wbinding',
+                'address-balance-missing', 'address-balance-extra', 'address-balance-differs',
+                'deposit-missing', 'deposit-extra', 'deposit-differs', 'use-wallet', 'api-error', 'died', 'timeout', 'step-error']
+KINDS['C07'] = LEDGER_KINDS + ['wallet-status', 'unready-wallet-selectable', 'importing-wallet-removable', 'quiescent-not-on-best']
+KINDS['C08'] = LEDGER_KINDS + ['wallet-status', 'unready-wallet-selectable', 'removed-residue']
+LIFE = {'Lifecycle': 'TRUE', 'InitAbsent': '{"w2"}', 'Removable': '{"w1", "w2"}'}
+IMPORT_ONLY = {'Lifecycle': 'TRUE', 'InitAbsent': '{"w2"}', 'Removable': '{}'}
+REMOVE_ONLY = {'Lifecycle': 'TRUE', 'InitAbsent': '{}', 'Removable': '{"w1", "w2"}'}
+PLAN_C07 = dict(
+    mc=dict(quick=[('MC_Life.cfg', 'MC_Ledger.tla', {'MaxBlocks': '5'})],
+            thorough=[('MC_Life.cfg', 'MC_Ledger.tla', {'MaxBlocks': '6'})]),
+    gens=[gen('Gen_Pay.cfg', 'MC_Pay.tla',
+              quick=[SIM(140, 14, **IMPORT_ONLY), SIM(60, 16, **LIFE)],
+              thorough=[SIM(2000, 16, **IMPORT_ONLY), SIM(1000, 18, **LIFE), SIM(600, 16, **dict(IMPORT_ONLY, ImportBatch='1'))]),
+          gen('Gen_Imp.cfg', 'MC_Imp.tla',
+              quick=[SIM(200, 16, **IMPORT_ONLY)],
+              thorough=[SIM(3000, 18, **IMPORT_ONLY), SIM(1500, 20, **dict(IMPORT_ONLY, Crashes='TRUE'))]),
+          gen('Gen_Stake.cfg', 'MC_Stake.tla', universe_extra=STAKE_X,
+              quick=[SIM(60, 16, **IMPORT_ONLY)],
+              thorough=[SIM(1500, 18, **IMPORT_ONLY)])],
+    assume=['the rescan batch is shortened from 1000 heights to ImportBatch (2) by a verif-tagged hook so that multi-batch imports happen on short chains',
+            'behaviours on which the model mispredicts whether a batch completed the import (rescan racing with an unprocessed reorganisation) give no verdict; they are counted under replays_failed_for_infrastructure'],
+)
+PLAN_C08 = dict(
+    mc=dict(quick=[('MC_Life.cfg', 'MC_Ledger.tla', {'MaxBlocks': '5'})],
+            thorough=[('MC_Life.cfg', 'MC_Ledger.tla', {'MaxBlocks': '6'})]),
+    gens=[gen('Gen_Pay.cfg', 'MC_Pay.tla',
+              quick=[SIM(120, 14, **REMOVE_ONLY), SIM(60, 16, **dict(LIFE, Crashes='TRUE'))],
+              thorough=[SIM(2000, 16, **REMOVE_ONLY), SIM(1200, 18, **dict(LIFE, Crashes='TRUE'))]),
+          gen('Gen_Stake.cfg', 'MC_Stake.tla', universe_extra=STAKE_X,
+              quick=[SIM(80, 16, **REMOVE_ONLY)],
+              thorough=[SIM(1500, 18, **dict(REMOVE_ONLY, Crashes='TRUE'))])],
+    assume=['a removal deletes fewer than 20000 credits, i.e. it completes in one removal round after the first phase'],
+)
+PROPS['C07'] = plan_check(PLAN_C07)
+PROPS['C08'] = plan_check(PLAN_C08)
+# crashes during background import / removal belong to C06 as well
+PLAN_C06['gens'][0]['quick'].append(SIM(60, 16, **dict(LIFE, Crashes='TRUE')))
+PLAN_C06['gens'][0]['thorough'].append(SIM(1500, 18, **dict(LIFE, Crashes='TRUE')))
+KINDS['C06'] += ['wallet-status']
 
 
 # ------------------------------------------------------------------ plug-in checks
